@@ -4,7 +4,7 @@ BASE_NOTE = ("Trusted: Coq 8.16.1 kernel (vm_compute for witnesses/examples only
              "the correspondence harness (generators, exact-rational canonicalisation, observation mapping); CPython 3.12/numpy "
              "float64 semantics on the exact (dyadic) input families. The theorems are about the Gallina model; the tie to /repo/src "
              "is the correspondence run on every check (sampled, not proved). ")
-SOURCE_COMMITS = ["bc49a1c", "e3a7f92", "9ed7728", "007ee91", "c29e4c1", "17a47e5", "867807e", "949de5f", "5cc174a", "d64e197", "df761a4", "5d29398", "7a3c11a", "0a21c22", "aeeccf6", "59481a8", "b5aca95", "679700e", "ca2559c", "e1a34e7", "3b48309", "af04624", "d811d2c", "621ca2a", "dac1774", "93d477c", "102736c", "02123fe", "911bb12", "3ef9ffd", "15e9860", "9b7c6c3", "10af766", "15aa013", "cad1090", "07de623", "4bf9c77", "9c0254b", "b710d24"]   # "fix:" commits only (no guarded hooks exist)
+SOURCE_COMMITS = ["bc49a1c", "e3a7f92", "9ed7728", "007ee91", "c29e4c1", "17a47e5", "867807e", "949de5f", "5cc174a", "d64e197", "df761a4", "5d29398", "7a3c11a", "0a21c22", "aeeccf6", "59481a8", "b5aca95", "679700e", "ca2559c", "e1a34e7", "3b48309", "af04624", "d811d2c", "621ca2a", "dac1774", "93d477c", "102736c", "02123fe", "911bb12", "3ef9ffd", "15e9860", "9b7c6c3", "10af766", "15aa013", "cad1090", "07de623", "4bf9c77", "9c0254b", "b710d24", "8e8da8b", "9e7b056", "a4a8ff4", "df1fc35"]   # "fix:" commits only (no guarded hooks exist)
 NOTES = ("Every check: (1) rebuilds the Coq development incrementally and re-checks coq/Props/<id>.v (grep gate for Admitted/Axiom/...); "
          "(2) runs physt from /repo/src and the extracted model on the same seeded cases; (3) applies the extracted check_<id> to the "
          "implementation's observation. VIOLATION lines carry a replay file; 'no-failing-input-found' is appended when only the "
@@ -126,6 +126,20 @@ CLAIMED = {
    note=BASE_NOTE + "pi and cos are numbers supplied by numpy with each observation (the theorems hold for any function with "
         "cos 0 = 1, cos pi = -1); RadialHistogram's measure is pi (r2^2 - r1^2) for 2-D and 3-D sources alike, as the property "
         "states; AzimuthalHistogram / CylindricalSurfaceHistogram ignore their radius in bin_sizes, as the property states."),
+ "C17": dict(
+   technique="Coq proofs of the container denotation (NaN rows dropped with their weights, order kept, nothing else dropped) and of additivity of weighted tallies over any chunking + extracted judge comparing every container's histogram with the one from the denoted arrays",
+   text=("Theorems: dropna keeps exactly the (row, weight) pairs whose row has no NaN, in order; the weighted tally into cells is "
+         "additive over concatenation and hence equals the cell-wise sum over ANY chunking. For every generated data set the "
+         "model computes the denoted clean arrays; physt's histogram of those arrays (numpy path, settled by C01/C02) is the "
+         "reference, and every container (list, tuple, iterator, (n,1) array, pandas Series / accessor / DataFrame accessor with "
+         "weight column, polars Series / namespace, list of rows, columns, pandas / polars DataFrames and accessors, dask arrays "
+         "in uneven chunks) must give the identical snapshot (bins, contents, errors2, missed, dtype) and the axis names "
+         "prescribed by the model (explicit > Series / column names > the facade's default); NaN with dropna=False, non-numeric "
+         "values, polars nulls, wrong shapes and weights of another length must be refused by every container. Conversions "
+         "(xarray, to_dataframe / to_series / IntervalIndex, Geant4 CSV written by the harness) must reproduce bins, contents, "
+         "errors and underflow / overflow."),
+   note=BASE_NOTE + "pandas / polars / dask / xarray are exercised, not verified; the dask path is only defined for adaptive "
+        "fixed-width binning without weights (the library refuses the rest); HistogramND has no xarray / pandas conversions."),
  "C19": dict(
    technique="Coq proofs over a per-context binding + token-stack model (restoration for every balanced body and on raise, isolation by induction over schedules, spawn snapshot) + extracted-model correspondence under forced interleavings of real threads / asyncio tasks",
    text=("Theorems: enter/exit restores the previous value and nesting for EVERY balanced body (nested blocks, assignments inside, "
